@@ -26,7 +26,8 @@ LEVEL = "exploration"
 RULE = ("Hypothesis builds a whole model for a random target, selects 0..6 numeric literals anywhere in its "
         "section values and replaces each by ${NAME} (value in [Variables]) or ${SECTION:KEY} (value in a "
         "[Constants] or [Species] entry), and adds 0..3 unused variables whose names are drawn from option names "
-        "of other sections. Non-trivial = at least one literal lifted and the output depends on it (checked by "
+        "of other sections. Placeholders may be nested (a variable defined through another) "
+        "or name an entry of their own section. Non-trivial = at least one literal lifted and the output depends on it (checked by "
         "the oracle run itself being 'ok'), or an unused variable named like a foreign option; distinct = "
         "canonical JSON.")
 ASSUMPTIONS = [
